@@ -1148,6 +1148,16 @@ pub fn c10(ctx: &mut Ctx) {
                 let (g2, _) = xmlrs_eval(&case.subj, &s2, &caller2, Some(&dflt), STEP_BUDGET);
                 ctx.count("rename/caller-with-default-binding");
                 if let Some(kind) = diff(&g1, &g2) { ctx.violation(d, &format!("C10/rename/caller-default/{}", kind), &format!("{} gives {}; {} gives {} (default {}) :: doc {}", estr, g1.brief(), s2, g2.brief(), dflt, case.text), &[("doc", &case.text), ("expr", &estr)]); }
+                // ... a default binding that was added and taken away again leaves no trace: what counts is the set of bindings now
+                {
+                    let mut cx = XContext::default();
+                    for (p, u) in &caller { cx.add_ns(Some(p.as_str()), u.as_str()); }
+                    cx.add_ns(None, dflt.as_str()); cx.remove_ns(None);
+                    if let Some((p0, u0)) = caller.first() { cx.remove_ns(Some(p0.as_str())); cx.add_ns(Some(p0.as_str()), u0.as_str()); }
+                    let (g3, _) = xmlrs_eval_cx(&case.subj, &estr, &mut cx, STEP_BUDGET);
+                    ctx.count("rename/caller-binding-history");
+                    if let Some(kind) = diff(&got, &g3) { ctx.violation(d, &format!("C10/binding-history/{}", kind), &format!("{} gives {} with the bindings {:?}, but {} after a default namespace was added and removed again :: doc {}", estr, got.brief(), caller, g3.brief(), case.text), &[("doc", &case.text), ("expr", &estr)]); }
+                }
                 // ... and it stands for a prefix on element name tests, nothing else
                 if !matches!(g1, Outcome::Panic(_) | Outcome::Steps) {
                     match judge_default_ns(&case, &e, &estr, &case.subj, &caller, &dflt) {
